@@ -116,6 +116,18 @@ def abstract_nl(t):
         ch = t.children()
         args = [abstract_nl(a) for a in ch]
         kind = t.decl().kind()
+        if kind == z3.Z3_OP_MUL and t.sort() == z3.IntSort() and not getattr(abstract_nl, "_in_som", False):
+            # integer index arithmetic: expand products of sums into a sum of monomials first ((i+1)*nf -> i*nf + nf)
+            t2 = z3.simplify(t, som=True)
+            if not t2.eq(t):
+                abstract_nl._in_som = True
+                try:
+                    r = abstract_nl(t2)
+                finally:
+                    abstract_nl._in_som = False
+                _abs_cache[k] = r
+                _keep.append(t)
+                return r
         if kind == z3.Z3_OP_MUL:
             # canonical monomial: numeric coefficient times the sorted list of non-numeric factors, collected
             # through nested products and divisions by numerals
@@ -228,6 +240,24 @@ def _comm_hyps(terms):
         else:
             out.append(f(a, b) == f(b, a))
 
+    ints = []
+    for t in terms:
+        for f, a, b in _muls_of(t):
+            if f.eq(_mulI):
+                ints.append((a, b))
+    # monotonicity of integer products sharing a factor: (x <= y and c >= 0) => x*c <= y*c   (index arithmetic)
+    uniq = {}
+    for a, b in ints:
+        uniq[(a.get_id(), b.get_id())] = (a, b)
+    plist = list(uniq.values())[:40]
+    for i, (a1, b1) in enumerate(plist):
+        out.append(z3.Implies(z3.And(a1 >= 0, b1 >= 0), _mulI(a1, b1) >= 0))
+        for (a2, b2) in plist[i + 1:]:
+            for (x, c1), (y, c2) in (((a1, b1), (a2, b2)), ((a1, b1), (b2, a2)), ((b1, a1), (a2, b2)), ((b1, a1), (b2, a2))):
+                if c1.eq(c2):
+                    p1, p2 = _mulI(a1, b1), _mulI(a2, b2)
+                    out.append(z3.Implies(z3.And(c1 >= 0, x <= y), p1 <= p2))
+                    out.append(z3.Implies(z3.And(c1 >= 0, y <= x), p2 <= p1))
     for t in terms:
         for f, a, b in _muls_of(t):
             comm(f, a, b)
